@@ -42,8 +42,9 @@ var c08Validities = []c08Validity{
 }
 
 var c08ACS = []string{"", "redirect-only", "post-only", "artifact-only", "paos-only", "unknown-only", "artifact-default+post",
-	"post+artifact-lowest", "none", "empty-binding", "empty-location", "redirect-default+post", "three", "query-url"}
-var c08ProtoB = []string{"", "post", "redirect", "artifact", "paos", "junk"}
+	"post+artifact-lowest", "none", "empty-binding", "empty-location", "redirect-default+post", "three", "query-url",
+	"simplesign-only", "soap-only", "uri-only", "simplesign-default+post", "post+simplesign"}
+var c08ProtoB = []string{"", "post", "redirect", "artifact", "paos", "junk", "simplesign", "soap"}
 var c08Persist = []string{"", "error", "empty-id", "error-ctx-deadline", "error-ctx-canceled", "lookup:error", "lookup:error-ctx-deadline", "lookup:error-ctx-canceled"}
 
 type c08Case struct {
@@ -86,6 +87,9 @@ func (c c08Case) labels() []string {
 	}
 	if c.FailAt > 0 {
 		l = append(l, fmt.Sprintf("writer-fails-at=%d", c.FailAt))
+	}
+	if c.FailAt < 0 {
+		l = append(l, fmt.Sprintf("writer-fails-after-bytes=%d", -c.FailAt))
 	}
 	return l
 }
@@ -182,21 +186,25 @@ func c08Exec(c c08Case) (classes []string, clauses []string) {
 	}
 	w, req, _ := ssoBuild(p)
 	rep := w.DoFail(req, c.FailAt)
-	cl, bad := c08Outcome(w, rep, c.FailAt > 0)
+	cl, bad := c08Outcome(w, rep, c.FailAt != 0)
 	classes = append(classes, cl)
 	clauses = append(clauses, bad...)
-	if c.FailAt > 0 {
-		return
-	}
-	// depth 2: the same request again on the same provider (persist faults apply to the first call only,
-	// so compare only when no fault was planned)
+	// depth 2: the same request again on the same provider with a healthy connection (persist faults apply to the first
+	// call only, so outcomes are compared only when no fault was planned). After a failed connection the second reply is
+	// compared with the reply the request gets on a fresh provider.
 	_, req2, _ := ssoBuild(p)
 	rep2 := w.Do(req2)
 	cl2, bad2 := c08Outcome(w, rep2, false)
 	for _, b := range bad2 {
 		clauses = append(clauses, "second-request:"+b)
 	}
-	if c.Persist == "" && cl2 != cl {
+	if c.FailAt != 0 {
+		wf, reqf, _ := ssoBuild(p)
+		clf, _ := c08Outcome(wf, wf.Do(reqf), false)
+		if c.Persist == "" && cl2 != clf {
+			clauses = append(clauses, "request-after-a-failed-connection-gets-a-different-outcome-than-on-a-fresh-provider")
+		}
+	} else if c.Persist == "" && cl2 != cl {
 		clauses = append(clauses, "second-identical-request-gets-different-outcome")
 	}
 	classes = append(classes, "2nd:"+cl2)
@@ -212,7 +220,7 @@ func init() { Registry["C08"] = runC08 }
 func runC08(ctx Ctx) int {
 	world.PinClock()
 	run := ev.NewRun("C08")
-	run.Rule = "full product of request validity (valid x4, failing at each validation step x12) x 14 SP ACS metadata shapes x 6 requested bindings x 8 storage answers (persist ok/error/empty id/context errors; SP lookup errors); every case executed twice on the same provider (event history of depth 2); thorough adds a ResponseWriter failing at write 1..3; a state is (provider storage table, reply); oracle = outcome dichotomy (persisted exactly once + 303 to the login URL of the returned id | nothing persisted + exactly one non-Success SAML Response or a plain HTTP error with text)"
+	run.Rule = "full product of request validity (valid x4, failing at each validation step x12) x 19 SP ACS metadata shapes (POST, Redirect, Artifact, PAOS, SimpleSign, SOAP, URI, unknown) x 8 requested bindings x 8 storage answers (persist ok/error/empty id/context errors; SP lookup errors); every case executed twice on the same provider (event history of depth 2); plus a ResponseWriter failing at the first Write call / after 100 bytes, followed by the same request on a healthy connection (thorough: Write call 1..3, after 1 / 100 / 700 bytes, every storage answer); a state is (provider storage table, reply); oracle = outcome dichotomy (persisted exactly once + 303 to the login URL of the returned id | nothing persisted + exactly one non-Success SAML Response or a plain HTTP error with text)"
 	run.Assume = []string{"the second request of a pair is byte-identical to the first", "writer failures are injected at Write-call granularity"}
 	if ctx.Replay != "" {
 		var c c08Case
@@ -234,10 +242,17 @@ func runC08(ctx Ctx) int {
 			for _, b := range c08ProtoB {
 				for _, ps := range c08Persist {
 					cases = append(cases, c08Case{Validity: v.Name, ACS: a, ProtoB: b, Persist: ps})
+					// connection failures while the reply is written: at the first Write call, after 100 bytes (quick: healthy
+					// storage only); thorough: every storage answer, Write call 1..3, after 1 / 100 / 700 bytes
+					fails := []int{}
+					if ps == "" {
+						fails = []int{1, -100}
+					}
 					if run.Tier == "thorough" {
-						for f := 1; f <= 3; f++ {
-							cases = append(cases, c08Case{Validity: v.Name, ACS: a, ProtoB: b, Persist: ps, FailAt: f})
-						}
+						fails = []int{1, 2, 3, -1, -100, -700}
+					}
+					for _, f := range fails {
+						cases = append(cases, c08Case{Validity: v.Name, ACS: a, ProtoB: b, Persist: ps, FailAt: f})
 					}
 				}
 			}
